@@ -44,6 +44,12 @@ fn main() {
         "C08ops" => c08::run_ops(seed, n, replay, &mut out),
         "C08tx" => c08::run_tx(seed, n, replay, &mut out),
         "C09" | "txgas" => c09::run(seed, n, replay, &mut out),
+        #[cfg(feature = "optimism")]
+        "C33" => c33::run(seed, n, replay, &mut out),
+        #[cfg(feature = "optimism")]
+        "opfee" => c33::run_opfee(seed, n, replay, &mut out),
+        #[cfg(feature = "optimism")]
+        "optx" => c33::run_optx(seed, n, replay, &mut out),
         other => {
             eprintln!("unknown component {other}");
             std::process::exit(2);
